@@ -185,6 +185,17 @@ def _as_array_or_scalar(exprs: Sequence[ScalarExpression],
         else:
             raise UnknownIndexLambdaExpr()
 
+    # NumPy broadcasts the *operands*: a binding that is not an operand (only a
+    # hand-built index lambda has one) takes no part in it, so the operation
+    # would not have the index lambda's shape.
+    try:
+        operand_shape = get_shape_after_broadcasting(
+            [res for res in result if isinstance(res, Array)])
+    except CannotBroadcastError:
+        raise UnknownIndexLambdaExpr() from None
+    if out_shape != operand_shape:
+        raise UnknownIndexLambdaExpr()
+
     return tuple(result)
 
 
